@@ -11,6 +11,7 @@ from . import common
 
 ID = 'C11'
 FUNCTIONS = [
+    'rust/src/lib.rs via rs2py: apply_esubst, apply_ssubst, instantiate_internal',
     'pattern.py: EVar/SVar/Symbol/Implies/App/Exists/Mu/MetaVar/ESubst/SSubst/Instantiate .apply_esubst/.apply_ssubst/.instantiate',
     'pattern.py: Instantiate.simplify, Notation.__call__',
 ]
@@ -29,13 +30,18 @@ EXPLANATION = (
 
 def _profs() -> dict[str, Prof]:
     from proof_generation import pattern as P
+    from proof_generation.proofs import definedness as D
+    from proof_generation.proofs import kore as K
+    from proof_generation.proofs import substitution as S
 
     return {
         'concrete': Prof(symbol=1),
         'meta': Prof(symbol=1, metavars=2, subst=True, mv_cfgs=((0, 0, 0, 0), (1, 0, 0, 0), (0, 1, 0, 0))),
+        'metars': Prof(symbol=1, metavars=2, subst=True, mv_cfgs=((0, 0, 0, 0), (1, 0, 0, 0), (0, 1, 0, 0))),
         'meta0': Prof(symbol=1, metavars=2, subst=True),
         'notation': Prof(symbol=0, metavars=2, subst=False, mu=False, notations=(P.bot, P.neg, P._and, P._or)),
         'plug': Prof(symbol=1, metavars=1, mu=True),
+        'binder': Prof(symbol=0, svar=False, mu=False, app=True, implies=False, exists=False, metavars=1, notations=(D.functional, S.forall(0), S.forall(1), K.sorted_exists(1))),
         'rawinst': Prof(symbol=0, svar=False, mu=False, app=False, metavars=2, raw_inst=True),
         'val': Prof(symbol=0, metavars=2, mu=False, app=False),
     }
@@ -46,10 +52,15 @@ PROFS: dict[str, Prof] = {}
 
 def setup() -> None:
     patches.install_hash()
+    from .. import rsbridge
+
+    rsbridge.mod()
 
 
 def setup_concrete() -> None:
-    pass
+    from .. import rsbridge
+
+    rsbridge.mod()
 
 
 def reset() -> None:
@@ -141,6 +152,117 @@ def h_compose(ctx: Any, n: int, m: int, prof: str, twin: bool = False) -> None:
     ctx.check(O.eq(O.expand(two), O.expand(one)), f'C11.compose[{_kinds(p)}]', lambda: f'{p!r} . {d1!r} . {d2!r}: {two!r} vs {one!r}')
 
 
+def _norm(t: tuple) -> tuple:
+    """drop pending substitutions of a variable that is declared fresh (the checker defers unconditionally,
+    the generator drops them at once; both denote the same pattern)"""
+    k = t[0]
+    if k in ('imp', 'app'):
+        return (k, _norm(t[1]), _norm(t[2]))
+    if k in ('ex', 'mu'):
+        return (k, t[1], _norm(t[2]))
+    if k == 'es':
+        inner = _norm(t[1])
+        if O.doc_e_fresh(inner, t[2]):
+            return inner
+        return ('es', inner, t[2], _norm(t[3]))
+    if k == 'ss':
+        inner = _norm(t[1])
+        if O.doc_s_fresh(inner, t[2]):
+            return inner
+        return ('ss', inner, t[2], _norm(t[3]))
+    return t
+
+
+def _may_capture(t: tuple, kind: str, x: Any, plug: tuple) -> bool:
+    """the substitution passes under a binder that the plug mentions (where the checker is entitled to refuse)"""
+    k = t[0]
+    if k in ('imp', 'app'):
+        return _may_capture(t[1], kind, x, plug) or _may_capture(t[2], kind, x, plug)
+    if k == 'ex':
+        if kind == 'e' and t[1] == x:
+            return False
+        if not O.doc_e_fresh(plug, t[1]):
+            return True
+        return _may_capture(t[2], kind, x, plug)
+    if k == 'mu':
+        if kind == 's' and t[1] == x:
+            return False
+        if not O.doc_s_fresh(plug, t[1]):
+            return True
+        return _may_capture(t[2], kind, x, plug)
+    return False
+
+
+def h_subst_rs(ctx: Any, n: int, m: int, prof: str, kind: str, twin: bool = False) -> None:
+    from .. import rsbridge
+    from ..rsrt import Panic
+
+    p = gens.gen(ctx, n, _prof(prof))
+    plug = gens.gen_upto(ctx, m, _prof('plug'))
+    x = ctx.int('x')
+    tp, tplug = O.expand(p), O.expand(plug)
+    mod = rsbridge.mod()
+    f = mod.apply_esubst if kind == 'e' else mod.apply_ssubst
+    try:
+        r = rsbridge.from_rs(f(rsbridge.to_rs(tp), x, rsbridge.to_rs(tplug)))
+    except Panic:
+        r = None
+    want = O.subst_e(tp, x, tplug) if kind == 'e' else O.subst_s(tp, x, tplug)
+    ctx.count('reached')
+    ctx.sample({'pattern': O.show(tp), 'var': repr(x), 'plug': O.show(tplug)})
+    if twin:
+        ctx.violation('TWIN')
+    if r is None:
+        ctx.count('rejected_for_capture')
+        ctx.check(_may_capture(tp, kind, x, tplug), f'C11.rs.apply_{kind}subst.rejects-without-capture[{tp[0]}]', lambda: f'{O.show(tp)} [{O.show(tplug)}/{x}] panics')
+        return
+    ctx.check(O.eq(_norm(r), _norm(want)), f'C11.rs.apply_{kind}subst[{tp[0]}]', lambda: f'{O.show(tp)} [{O.show(tplug)}/{x}] -> {O.show(r)}, textbook {O.show(want)}')
+    # Python and Rust agree
+    rp = p.apply_esubst(x, plug) if kind == 'e' else p.apply_ssubst(x, plug)
+    ctx.check(O.eq(_norm(O.expand(rp)), _norm(r)), f'C11.rs-vs-py.apply_{kind}subst[{tp[0]}]', lambda: f'{O.show(tp)} [{O.show(tplug)}/{x}]: rust {O.show(r)} python {rp!r}')
+
+
+def h_inst_rs(ctx: Any, n: int, m: int, prof: str, twin: bool = False) -> None:
+    from .. import rsbridge
+    from ..rsrt import Panic
+
+    pr = _prof(prof)
+    p = gens.gen(ctx, n, pr)
+    delta = _delta(ctx, pr.metavars, m, pr)
+    tp = O.expand(p)
+    td = {k: O.expand(v) for k, v in delta.items()}
+    mod = rsbridge.mod()
+    ids = list(td.keys())
+    try:
+        res = mod.instantiate_internal(rsbridge.to_rs(tp), ids, [rsbridge.to_rs(td[k]) for k in ids])
+        r = tp if res is None else rsbridge.from_rs(res)
+    except Panic:
+        r = None
+    ctx.count('reached')
+    ctx.sample({'pattern': O.show(tp), 'delta': {k: O.show(v) for k, v in td.items()}})
+    if twin:
+        ctx.violation('TWIN')
+    if r is None:
+        # constraint violation or capture: the checker is entitled to refuse exactly then
+        ok = False
+        for node in O.all_metavar_nodes(tp):
+            if node[1] in td:
+                v = td[node[1]]
+                if any(not O.doc_e_fresh(v, i) for i in node[2]) or any(not O.doc_s_fresh(v, i) for i in node[3]):
+                    ok = True
+        try:
+            from .. import refm
+
+            refm.meta_substitute(tp, ids, [td[k] for k in ids])
+        except refm.Unspecified:
+            ok = True
+        ctx.count('rejected')
+        ctx.check(ok, f'C11.rs.instantiate.rejects-without-reason[{tp[0]}]', lambda: f'{O.show(tp)} . { {k: O.show(v) for k, v in td.items()} } panics')
+        return
+    want = O.inst(tp, td)
+    ctx.check(O.eq(_norm(r), _norm(want)), f'C11.rs.instantiate[{tp[0]}]', lambda: f'{O.show(tp)} . { {k: O.show(v) for k, v in td.items()} } -> {O.show(r)}, textbook {O.show(want)}')
+
+
 def levels(tier: str) -> list[dict]:
     M = 'vf.props.c11'
     L: list[dict] = []
@@ -151,6 +273,14 @@ def levels(tier: str) -> list[dict]:
     for n in ([1, 2, 3, 4] if q else [1, 2, 3, 4, 5]):
         for kind in 'es':
             L.append(dict(label=f'subst-{kind}/notation/n={n},plug<=2', module=M, fn='h_subst', kwargs=dict(n=n, m=2, prof='notation', kind=kind), budget_s=60 if q else 400, required=n <= 3))
+    for n in ([1, 2, 3] if q else [1, 2, 3, 4]):
+        for kind in 'es':
+            L.append(dict(label=f'rust/subst-{kind}/meta/n={n},plug<=2', module=M, fn='h_subst_rs', kwargs=dict(n=n, m=2, prof='metars', kind=kind), budget_s=60 if q else 400, required=n <= 3, twin=(n == 2 and kind == 'e')))
+    for n in ([1, 2, 3] if q else [1, 2, 3, 4]):
+        L.append(dict(label=f'rust/inst/meta/n={n},val<=1', module=M, fn='h_inst_rs', kwargs=dict(n=n, m=1, prof='metars'), budget_s=60 if q else 400, required=n <= 3, twin=(n == 2)))
+    for n in ([2, 3, 4] if q else [2, 3, 4, 5]):
+        for kind in 'es':
+            L.append(dict(label=f'subst-{kind}/binder-notation/n={n},plug<=2', module=M, fn='h_subst', kwargs=dict(n=n, m=2, prof='binder', kind=kind), budget_s=60 if q else 400, required=n <= 3, twin=False))
     for n in ([1, 2, 3] if q else [1, 2, 3, 4]):
         m = 1 if q else 2
         L.append(dict(label=f'inst/meta/n={n},val<={m}', module=M, fn='h_inst', kwargs=dict(n=n, m=m, prof='meta'), budget_s=60 if q else 600, required=n <= 3))
